@@ -1,6 +1,7 @@
 package props
 
 import (
+	"bytes"
 	"crypto/sha256"
 	"encoding/hex"
 	"fmt"
@@ -499,6 +500,35 @@ func runAttCaseObs(want string, obs func(h *sim.Hub, what string)) func(ci inter
 						break
 					}
 				}
+				// the vote is kept with the event the validator reported, and with no other event of that nonce
+				{
+					mine := attEvent(ch, nonce, op.Variant).Hash()
+					me := sim.ValAddr(v).String()
+					in := func(r *mtypes.ExternalEventVoteRecord) bool {
+						if r == nil {
+							return false
+						}
+						for _, x := range r.Votes {
+							if x == me {
+								return true
+							}
+						}
+						return false
+					}
+					if !in(h.K.GetExternalEventVoteRecord(h.Ctx(), mtypes.ChainID(ch), nonce, mine)) {
+						if a.fail("C14", "vote-not-kept-with-reported-event", "validator %d reported variant %d of %s nonce %d; the vote record of that event does not hold its vote", v, op.Variant, ch, nonce) {
+							break
+						}
+					}
+					for variant := 0; variant < 6; variant++ {
+						oh := attEvent(ch, nonce, variant).Hash()
+						if !bytes.Equal(oh, mine) && !voters[nv{ch, nonce, variant}][v] && in(h.K.GetExternalEventVoteRecord(h.Ctx(), mtypes.ChainID(ch), nonce, oh)) {
+							if a.fail("C14", "vote-counted-for-another-event", "validator %d reported variant %d of %s nonce %d and is listed as a voter of variant %d", v, op.Variant, ch, nonce, variant) {
+								break
+							}
+						}
+					}
+				}
 				k := nv{ch, nonce, op.Variant}
 				if voters[k] == nil {
 					voters[k] = map[int]bool{}
@@ -563,5 +593,18 @@ func TestC03(t *testing.T) {
 			"staking is the harness's SimStaking double",
 			"a validator's first claim on a chain may carry any nonce the module accepts; only later claims are required to be consecutive",
 		},
+	}).Main(t)
+}
+
+// TestC14Claims: C14 over claim histories - where a vote is kept. Conflicting reports for one nonce (also after one of them
+// was observed) must each stay with the event that was reported.
+func TestC14Claims(t *testing.T) {
+	(&pbt.Check{
+		ID:   "C14",
+		Part: "claims",
+		Rule: "claim histories as in C02/C03 (conflicting reports for one nonce before and after one of them is observed, repeats, late voters); after every accepted claim the vote record of the reported event holds the validator's vote and no record of another event at that nonce lists it unless it reported that one too; non-trivial = a history with conflicting claims at some nonce; distinct = distinct case JSON",
+		Gen:  genAttCase,
+		New:  func() interface{} { return &AttCase{} },
+		Run:  runAttCase("C14"),
 	}).Main(t)
 }
